@@ -1052,6 +1052,8 @@ class Filterbank(ABC):
             skipback=max_delay,
             **plan_kwargs,
         ):
+            # the kernel accumulates into the output buffer
+            out_ar.fill(0)
             kernels.subband(
                 data,
                 out_ar,
